@@ -47,7 +47,8 @@ var c05DirName = [2]string{"up", "down"}
 var c05ConnName = [2]string{"client", "covert"}
 
 // c05Step is one element of a read script: N bytes, the last of them returned together with Err
-// (N == 0: the error alone).
+// (N == 0: the error alone; N == 0 without Err: a legal zero-length read (0, nil), as framing /
+// TLS-like wrappers produce - it is not an end of stream).
 type c05Step struct {
 	N    int    `json:"n"`
 	Err  string `json:"err,omitempty"`
@@ -76,6 +77,10 @@ type c05Script struct {
 	WF       []c05WF   `json:"wf,omitempty"`
 	DF       []c05DF   `json:"df,omitempty"`
 	CloseErr string    `json:"close_err,omitempty"`
+	// CloseMs: the first Close marks the connection closed at once (blocked calls wake up, as with a
+	// real socket) but returns only after this many milliseconds (a lingering close); further Close
+	// calls return "already closed" immediately.
+	CloseMs int `json:"close_ms,omitempty"`
 }
 
 func (s c05Script) total() int {
@@ -91,7 +96,7 @@ type c05Ev struct {
 	Seq   int
 	Dir   int // calling direction (-1 unknown)
 	Conn  int
-	Op    string // read | write | setdl | close
+	Op    string // read | write | setdl | close | close-ret (the Close call #Call returned)
 	Call  int    // per (conn, op[, dir]) call index
 	N     int    // bytes returned by Read / accepted by Write
 	Len   int    // bytes offered to Write
@@ -100,6 +105,7 @@ type c05Ev struct {
 	Bad   int    // write: first offered byte that differs from the source stream at Off (-1 none)
 	BadDl int    // write: first accepted byte that does not continue the delivered stream (-1 none)
 	Fault bool   // the result was injected by the script (not a consequence of a close)
+	WG    int    // close / close-ret: WaitGroup counter at that moment (-1 unknown)
 }
 
 type c05World struct {
@@ -120,6 +126,14 @@ type c05World struct {
 	done  [2]int // sequence number at which the direction's halfPipe returned (0 = not yet)
 	pan   [2]any
 	timer *time.Timer
+	wgN   func() int // current WaitGroup counter (nil: unknown)
+}
+
+func (w *c05World) wgCount() int {
+	if w.wgN == nil {
+		return -1
+	}
+	return w.wgN()
 }
 
 func c05NewWorld(sched string) *c05World {
@@ -298,6 +312,7 @@ type c05Conn struct {
 	offered   int
 	delivered int
 	closed    bool
+	closeRet  bool // the first Close call has returned
 	nClose    int
 	dlSet     bool
 	endHit    bool
@@ -359,10 +374,10 @@ func (c *c05Conn) read(d int, p []byte) (int, error) {
 				c.ri++
 				c.off = 0
 			}
-			if n == 0 && kind == "" {
+			if n == 0 && kind == "" && st.N != 0 {
 				continue
 			}
-			c.ev(c05Ev{Dir: d, Op: "read", N: n, Off: off, Err: kind, Fault: kind != ""})
+			c.ev(c05Ev{Dir: d, Op: "read", N: n, Off: off, Err: kind, Fault: kind != "" || st.N == 0})
 			return n, c.mkErr(kind, "read")
 		}
 		switch c.s.End {
@@ -477,14 +492,30 @@ func (c *c05Conn) close(d int) error {
 	idx := c.nClose
 	c.nClose++
 	if c.closed {
-		c.ev(c05Ev{Dir: d, Op: "close", Call: idx, Err: "closed"})
+		c.ev(c05Ev{Dir: d, Op: "close", Call: idx, Err: "closed", WG: w.wgCount()})
+		c.ev(c05Ev{Dir: d, Op: "close-ret", Call: idx, Err: "closed", WG: w.wgCount()})
 		return c.mkErr("closed", "close")
 	}
 	c.closed = true
-	c.ev(c05Ev{Dir: d, Op: "close", Call: idx, Err: c.s.CloseErr, Fault: c.s.CloseErr != ""})
+	c.ev(c05Ev{Dir: d, Op: "close", Call: idx, Err: c.s.CloseErr, Fault: c.s.CloseErr != "" || c.s.CloseMs > 0, WG: w.wgCount()})
 	w.pick()
 	w.cond.Broadcast()
+	if c.s.CloseMs > 0 {
+		w.mu.Unlock()
+		time.Sleep(time.Duration(c.s.CloseMs) * time.Millisecond)
+		w.mu.Lock()
+	}
+	c.closeRet = true
+	c.ev(c05Ev{Dir: d, Op: "close-ret", Call: idx, Err: c.s.CloseErr, WG: w.wgCount()})
+	w.cond.Broadcast()
 	return c.mkErr(c.s.CloseErr, "close")
+}
+
+// closeState reports whether Close was called and whether the first Close call has returned.
+func (c *c05Conn) closeState() (begun, returned bool) {
+	c.w.mu.Lock()
+	defer c.w.mu.Unlock()
+	return c.closed, c.closeRet
 }
 
 func (c *c05Conn) isClosed() bool {
